@@ -1,12 +1,15 @@
 #!/bin/sh
-# run_campaign.sh <Cxx>: coverage-guided (libFuzzer) campaign for the property, thorough tier only.
-# Same oracles as the proptest campaigns (see fuzz_targets/).  Exit 0 nothing found, 1 VIOLATION (line
-# printed, replay file written by the target), 2 inconclusive (build failure / fuzzer error).
+# run_campaign.sh <Cxx>: coverage-guided (libFuzzer) campaigns for the property, thorough tier only.
+# Same oracles as the proptest campaigns (see fuzz_targets/).  Fixed work: PGFUZZ_PROCS processes per
+# target (seeds VERIF_SEED, VERIF_SEED+1, ...), each -runs=PGFUZZ_RUNS from its own copy of the
+# starting corpus.  Exit 0 nothing found, 1 VIOLATION (line printed, replay file written by the
+# target), 2 inconclusive (build failure / fuzzer error / libFuzzer timeout or OOM).
 ID=$1
 F=/verif/fuzz
 SEED=${VERIF_SEED:-1}
 [ "$SEED" = 0 ] && SEED=1
-RUNS=${PGFUZZ_RUNS:-2000000}
+RUNS=${PGFUZZ_RUNS:-200000}
+PROCS=${PGFUZZ_PROCS:-8}
 case "$ID" in
 C17) JOBS="deser_bytes:-" ;;
 C01) JOBS="ops:0" ;;
@@ -20,17 +23,20 @@ C19) JOBS="ops:7" ;;
 esac
 cd /verif/harness || exit 2
 export CARGO_NET_OFFLINE=true
+# rebuilds the instrumented harness (and petgraph from /repo's working tree) when anything changed
 if ! cargo +nightly fuzz build --fuzz-dir "$F" >"$F/build.log" 2>&1; then
     tail -20 "$F/build.log"; echo "INCONCLUSIVE property=$ID: fuzz build failed"; exit 2
 fi
+BIN="$F/target/x86_64-unknown-linux-gnu/release"
 rc=0
 for job in $JOBS; do
     target=${job%%:*}; sel=${job##*:}
-    work="$F/work/$ID-$target-$sel"
-    rm -rf "$work"; mkdir -p "$work" "$F/artifacts/$ID"
+    base="$F/work/$ID-$target-$sel"
+    rm -rf "$base" "$base".*; mkdir -p "$base" "$F/artifacts/$ID"
     if [ "$target" = deser_bytes ]; then
-        /verif/harness/target/release/pgcheck fuzz-seeds "$work" || exit 2
-        maxlen=600; runs=$RUNS
+        /verif/harness/target/release/pgcheck fuzz-seeds "$base" || exit 2
+        maxlen=600
+        unset PGFUZZ_TARGET
     else
         export PGFUZZ_TARGET=$sel
         case "$sel" in
@@ -38,39 +44,50 @@ for job in $JOBS; do
         4) subname=csr/history ;; 5) subname=list/history ;; 6) subname=acyclic/history ;; 7) subname=unionfind/history ;;
         esac
         # starting corpus: 96 histories drawn from the proptest strategy (encoded with pgcheck::fuzzde) + the empty input
-        VERIF_SEED=$SEED /verif/harness/target/release/pgcheck fuzz-seeds "$work" "$ID" "$subname" 96 2>/dev/null || exit 2
-        : > "$work/empty"
-        maxlen=1500; runs=$((RUNS / 4))
+        VERIF_SEED=$SEED /verif/harness/target/release/pgcheck fuzz-seeds "$base" "$ID" "$subname" 96 2>/dev/null || exit 2
+        : > "$base/empty"
+        maxlen=1500
     fi
-    out="$F/work/$ID-$target-$sel.log"
-    cargo +nightly fuzz run --fuzz-dir "$F" "$target" "$work" -- -runs="$runs" -seed="$SEED" -max_len=$maxlen -len_control=0 \
-        -artifact_prefix="$F/artifacts/$ID/" -timeout=60 -rss_limit_mb=4096 -print_final_stats=1 >"$out" 2>&1
-    frc=$?
-    execs=$(grep -o "stat::number_of_executed_units: *[0-9]*" "$out" | grep -o "[0-9]*$" | tail -1)
-    cov=$(grep -o "cov: [0-9]*" "$out" | tail -1 | grep -o "[0-9]*")
-    echo "[fuzz $ID $target/$sel] executions=${execs:-?} coverage_counters=${cov:-?} libfuzzer_rc=$frc"
-    python3 - "$ID" "$target/$sel" "${execs:-0}" "${cov:-0}" "$frc" <<'PY'
+    p=0
+    while [ $p -lt "$PROCS" ]; do
+        work="$base.$p"; cp -r "$base" "$work"
+        "$BIN/$target" "$work" -runs="$RUNS" -seed=$((SEED + p)) -max_len=$maxlen -len_control=0 \
+            -artifact_prefix="$F/artifacts/$ID/" -timeout=120 -rss_limit_mb=6000 -print_final_stats=1 >"$work.log" 2>&1 &
+        eval "pid$p=$!"
+        p=$((p + 1))
+    done
+    p=0; execs=0; cov=0; worst=0
+    while [ $p -lt "$PROCS" ]; do
+        eval "wait \$pid$p"; frc=$?
+        out="$base.$p.log"
+        e=$(grep -o "stat::number_of_executed_units: *[0-9]*" "$out" | grep -o "[0-9]*$" | tail -1)
+        c=$(grep -o "cov: [0-9]*" "$out" | tail -1 | grep -o "[0-9]*")
+        execs=$((execs + ${e:-0})); [ "${c:-0}" -gt "$cov" ] && cov=$c
+        if [ $frc -ne 0 ]; then
+            if grep -q "^VIOLATION property=" "$out"; then
+                if [ $rc != 1 ]; then grep -m1 -A 2 "^VIOLATION property=" "$out"; fi
+                rc=1
+            else
+                tail -5 "$out"; echo "INCONCLUSIVE property=$ID: libFuzzer process $p of $target/$sel ended with code $frc without a violation line (timeout / oom / fuzzer error)"
+                [ $rc = 0 ] && rc=2
+            fi
+            [ $frc -gt $worst ] && worst=$frc
+        fi
+        p=$((p + 1))
+    done
+    echo "[fuzz $ID $target/$sel] processes=$PROCS executions=$execs max_coverage_counters=$cov worst_exit=$worst"
+    python3 - "$ID" "$target/$sel" "$execs" "$cov" "$worst" "$PROCS" <<'PY'
 import json,sys
-pid,tgt,execs,cov,frc=sys.argv[1:6]
+pid,tgt,execs,cov,frc,procs=sys.argv[1:7]
 p=f"/verif/evidence/{pid}.json"
 try:
     e=json.load(open(p))
-    e["coverage"].setdefault("libfuzzer_campaigns",[]).append({"target":tgt,"executions":int(execs),"coverage_counters":int(cov),"exit_code":int(frc)})
+    e["coverage"].setdefault("libfuzzer_campaigns",[]).append({"target":tgt,"processes":int(procs),"executions":int(execs),"coverage_counters":int(cov),"worst_exit_code":int(frc)})
     e["coverage"]["evaluations"]+=int(execs)
     json.dump(e,open(p,"w"),indent=1)
 except Exception as ex:
     print("evidence update failed:",ex)
 PY
-    if [ $frc -ne 0 ]; then
-        if grep -q "^VIOLATION property=" "$out"; then
-            grep "^VIOLATION property=" "$out" | head -1
-            grep -m1 -A 2 "^VIOLATION property=" "$out" | tail -2
-            rc=1
-        else
-            tail -5 "$out"; echo "INCONCLUSIVE property=$ID: libFuzzer exit code $frc without a violation line (timeout / oom / fuzzer error)"
-            [ $rc = 0 ] && rc=2
-        fi
-    fi
-    rm -rf "$work"
+    rm -rf "$base" "$base".[0-9]*
 done
 exit $rc
